@@ -274,3 +274,74 @@ Proof.
   - split; [exact E|]. exists t. split; assumption.
   - rewrite (sreach_cbmid s Hr) in F. destruct F.
 Qed.
+
+(* ---------------- the termination variant of M1 (Proofs/ParallelProgress.v) in the sync model ---------------- *)
+Require Import JV.Proofs.ParallelProgress.
+
+Lemma mu_adv_s b : mu (base (fst (adv_s b))) <= mu b.
+Proof.
+  assert (Hfin : forall x ph exc ab, mu (finalize x ph exc ab) <= mu x).
+  { intros x ph exc ab. unfold mu, todo. cbn [aborting N taken ready inflight cbmid finalize].
+    destruct (aborting x); cbn [orb]; [lia|]. destruct ab; lia. }
+  assert (Hd : forall x, mu (base (fst (drain_s x))) <= mu x).
+  { intros x. unfold drain_s. destruct (phase x) as [ | | | |rem| ]; cbn [fst base]; try lia.
+    destruct rem; cbn [fst base]; unfold mu, todo; cbn; lia. }
+  unfold adv_s. destruct (phase b) as [ | | | |rem| ]; cbn [fst base]; try lia.
+  - destruct (aborting b) eqn:Hab.
+    + destruct (first_failed b); cbn [fst base]; [apply Hfin|].
+      pose proof (Hd (loop_exit b)). pose proof (Hfin b (Draining (if exception b then [] else jobs b)) (exception b) false).
+      unfold loop_exit in *. lia.
+    + destruct (jobs b); cbn [fst base]; [|unfold mu, todo; cbn; lia].
+      destruct (iterating b || (n_comp b <? n_disp b)); cbn [fst base]; [lia|].
+      pose proof (Hd (loop_exit b)). pose proof (Hfin b (Draining (if exception b then [] else jobs b)) (exception b) false).
+      unfold loop_exit in *. lia.
+  - apply Hd.
+Qed.
+
+Lemma mu_cb_enter s t k : Inv2 s -> get_trk s t = Some k -> In t (inflight s) ->
+  mu (cb_enter s t) < mu s /\ In t (cbmid (cb_enter s t)) /\ get_trk (cb_enter s t) t <> None.
+Proof.
+  intros H2 Hk Hin. unfold cb_enter. rewrite Hk.
+  pose proof (length_remove_id_in t (inflight s) (j_nd_infl s H2) Hin) as Hlen.
+  destruct (negb (tk_cid k =? cid s) || aborting s) eqn:Hd.
+  - split; [|split].
+    + unfold mu, todo. cbn [aborting N taken ready inflight cbmid move_mid]. rewrite app_length. cbn [length]. lia.
+    + cbn. apply in_or_app. right. left. reflexivity.
+    + unfold get_trk. cbn [trk move_mid]. unfold get_trk in Hk. congruence.
+  - split; [apply (mu_cb_start_strict s t None k H2 Hk Hin)|].
+    apply orb_false_iff in Hd as [Hcur Hab].
+    unfold cb_start. rewrite Hk. assert (Hm : mem_id t (inflight s) = true) by (apply mem_id_In; exact Hin).
+    rewrite Hm. cbn [negb]. rewrite Hcur, Hab. cbn [orb].
+    split.
+    + cbn [cbmid]. apply in_or_app. right. left. reflexivity.
+    + unfold get_trk. cbn [trk]. destruct (tk_status k); cbn [orb].
+      * rewrite set_status_eq. intros E. apply nth_error_None in E. rewrite set_status_in_length in E.
+        unfold get_trk in Hk. assert (t < length (trk s)) by (apply nth_error_Some; congruence). lia.
+      * unfold get_trk in Hk. congruence.
+      * unfold get_trk in Hk. congruence.
+Qed.
+
+(* a completion callback of an in-flight batch strictly decreases mu; every other event leaves it or decreases it *)
+Theorem sync_mu_callback_decreases s t b : sreach s -> 1 <= b -> t < length (trk (base s)) ->
+  In t (inflight (base s)) -> mu (base (fst (sstep s (SCb t b)))) < mu (base s).
+Proof.
+  intros Hr Hb Hlt Hin. pose proof (sreach_SIO6 s Hr) as [H _].
+  pose proof (sio_inv2 _ _ H) as H2. pose proof (sio_wf _ _ H) as Hnj.
+  destruct H as [[[[H1 _] _] _ _ _] _].
+  destruct s as [bs k]. cbn [base blk] in *.
+  destruct (get_trk bs t) as [tk|] eqn:Hk; [|unfold get_trk in Hk; apply nth_error_None in Hk; lia].
+  assert (Hcs : mu (cb_sync bs t b) < mu bs).
+  { unfold cb_sync. rewrite Hk. assert (Hm : mem_id t (inflight bs) = true) by (apply mem_id_In; exact Hin). rewrite Hm.
+    destruct (mu_cb_enter bs t tk H2 Hk Hin) as (Hlt1 & Hmid & Hk1).
+    (* the entered state still satisfies Inv1 / Inv2 *)
+    assert (He : SIO (cb_enter bs t) k).
+    { pose proof (sreach_SIO _ Hr) as HS. cbn [base blk] in HS. unfold cb_enter. rewrite Hk. unfold get_trk in Hk.
+      destruct (Nat.eqb_spec (tk_cid tk) (cid bs)) as [E|E]; cbn [negb orb].
+      - destruct (aborting bs) eqn:Hab; [eapply sio_cb_move; eauto | eapply sio_cb_ghost; eauto].
+      - eapply sio_cb_move; eauto. }
+    pose proof (sio_inv2 _ _ He) as H2e. destruct He as [[[[H1e _] _] _ _ _] _].
+    assert (Hnje : 1 <= n_jobs (c (cb_enter bs t))) by (destruct H1e as [[A _] _ _ _ _]; exact A).
+    destruct (mu_cb_finish (cb_enter bs t) t b H1e H2e Hnje Hb) as [_ Hs]. specialize (Hs Hmid Hk1). lia. }
+  cbn [sstep base blk]. destruct k as [j|]; cbn [fst base]; [exact Hcs|].
+  rewrite fst_lift. pose proof (mu_adv_s (cb_sync bs t b)). lia.
+Qed.
